@@ -559,8 +559,13 @@ impl PhysicalOperator for StreamingParquetScanExec {
                             parquet::arrow::arrow_reader::ArrowPredicateFn::new(
                                 mask,
                                 move |batch: RecordBatch| {
-                                    let arr = batch
-                                        .column(0)
+                                    // the published keys are BIGINT; a narrower integer key
+                                    // column (INTEGER joined to BIGINT) is widened first
+                                    let widened = arrow::compute::cast(
+                                        batch.column(0),
+                                        &arrow::datatypes::DataType::Int64,
+                                    )?;
+                                    let arr = widened
                                         .as_any()
                                         .downcast_ref::<arrow::array::Int64Array>()
                                         .ok_or_else(|| {
@@ -769,8 +774,11 @@ fn ipc_read_work(
         let col = pos_of(*ridx)?;
         let mut kept = Vec::with_capacity(batches.len());
         for batch in batches {
-            let arr = batch
-                .column(col)
+            // the published keys are BIGINT; a narrower integer key column is widened first
+            let widened =
+                arrow::compute::cast(batch.column(col), &arrow::datatypes::DataType::Int64)
+                    .map_err(|e| QueryError::Execution(e.to_string()))?;
+            let arr = widened
                 .as_any()
                 .downcast_ref::<arrow::array::Int64Array>()
                 .ok_or_else(|| {
